@@ -41,8 +41,11 @@ pub struct Error { pub e: u8 }
 pub uninterp spec fn is_ident(s: Seq<char>) -> bool;
 #[verifier::external_body] pub fn is_macro_name(s: &str) -> (r: bool) ensures r == is_ident(s@) { unimplemented!() }
 // the preprocessor context: what was defined last
+pub uninterp spec fn expand(c: Context, s: Seq<char>) -> Seq<char>;
 pub struct Context { pub name: Ghost<Seq<char>>, pub value: Ghost<Seq<char>>, pub n: Ghost<int>, pub names: Ghost<Set<Seq<char>>> }
 impl Context {
+    // Context::replace_all (U-replall): what the macros known so far make of a text
+    #[verifier::external_body] pub fn replace_all(&self, s: &str) -> (r: String) ensures r@ == expand(*self, s@) { unimplemented!() }
     #[verifier::external_body] pub fn get_macro(&self, name: &str) -> (r: Option<&String>) ensures (r is Some) == self.names@.contains(name@) { unimplemented!() }
     #[verifier::external_body] pub fn undefine(&mut self, name: &str) requires old(self).names@.contains(name@),
         ensures final(self).names@ == old(self).names@.remove(name@), final(self).n@ == old(self).n@ - 1, final(self).name == old(self).name, final(self).value == old(self).value { unimplemented!() }
@@ -67,6 +70,8 @@ def candidates(f):
                 "simulate": {"init": {}, "expect": {"r": 1}, "stack_empty": True}, "contract_only": True, "note": "-D V=1 twice, then #undef V / #define V 0 in the source"})
     out.append({"source": "unsigned char r;\nvoid main() { r = V; }\n", "args": ["-O0", "-D", "V=0", "-D", "V=1"], "expect": {"panic": False},
                 "simulate": {"init": {}, "expect": {"r": 1}, "stack_empty": True}, "contract_only": True, "note": "-D V=0 -D V=1: the last one wins"})
+    out.append({"source": "unsigned char r;\nvoid main() { r = B; }\n", "args": ["-O0", "-D", "A=1", "-D", "B=A+2"], "expect": {"panic": False, "must_compile": True},
+                "simulate": {"init": {}, "expect": {"r": 3}, "stack_empty": True}, "contract_only": True, "note": "-D A=1 -D B=A+2: as `#define A 1` / `#define B A+2`"})
     out.append({"source": "NL\nNL\nvoid main() { x = 1; }\n", "args": ["-O0", "-D", "NL=\n\n\n"], "expect": {"panic": False}, "contract_only": True, "note": "-D value with line breaks, then an error to locate"})
     return out
 
@@ -89,6 +94,9 @@ def build(repo):
     c.sub(r"\b%s\.split\(('.')\)" % var, r"str_split(%s, \1)" % var, "R15 str::split(char) -> shim iterator", expect=(0, 1))
     c.sub(r"\b(\w+)\.contains\(('(?:\\.|[^'\\])')\)", r"str_contains_char(\1, \2)", "R15 str::contains(char) -> shim", expect=(0, 2))
     c.sub(r"return Err\(Error::Configuration \{(?:[^}\"]|\"[^\"]*\")*\}\);", "return Err(Error { e: 0 });", "R1 the error value -> any error", expect=(0, 4))
+    if re.search(r"let value = context\.replace_all\(", c.text):
+        c.sub(r"str_contains_char\(value,", "str_contains_char(&value,", "R3 the expanded value is a String: passed by reference to the shim", expect=(0, 1))
+        c.sub(r"context\.define\((\w+), value\)", r"context.define(\1, &value)", "R3 Into<String>: the String is passed by reference to the stub", expect=1)
     if re.search(r"\b%s\.\w+\(" % var, c.text):
         raise Undecided("compile(): the option text is used through a method outside the unit's shims: %r" % re.search(r"\b%s\.\w+\(" % var, c.text).group(0))
     fn = """
@@ -97,7 +105,8 @@ pub fn dash_d(context: &mut Context, %(v)s: &String) -> (res: Result<(), Error>)
     ensures res is Ok ==> final(context).n@ == old(context).n@ + (if old(context).names@.contains(name_of(%(v)s@)) { 0int } else { 1int }), //@ C08:dash-d-defines-one-macro
         res is Ok ==> final(context).names@ =~= old(context).names@.insert(name_of(%(v)s@)), //@ C08,C07:dash-d-name-is-defined-afterwards
         res is Ok ==> final(context).name@ == name_of(%(v)s@), //@ C08:dash-d-name-is-the-text-before-the-first-equals
-        res is Ok ==> final(context).value@ == value_of(%(v)s@), //@ C08:dash-d-value-is-everything-after-the-first-equals
+        // as `#define NAME VALUE` does: the macros known at that moment are expanded in the value
+        res is Ok ==> final(context).value@ == expand(*old(context), value_of(%(v)s@)), //@ C08:dash-d-value-is-everything-after-the-first-equals
         res is Err ==> final(context).n@ == old(context).n@,
 {
     proof { reveal_strlit("1"); lemma_first_of(%(v)s@, '='); assert(%(v)s@.subrange(0, %(v)s@.len() as int) =~= %(v)s@); }
